@@ -412,9 +412,11 @@ type c04Exec struct {
 	res        *c04Result
 	// prop and mech let another property's harness (C06, store part) reuse this executor
 	// with its own violation keys
-	prop  string
-	mech  func() string
-	names map[byte]string
+	prop string
+	// firstSnapID: used by the replicated-load scenarios (the snapshot taken before the load)
+	firstSnapID string
+	mech        func() string
+	names       map[byte]string
 }
 
 func (c *c04Exec) opName(op byte) string {
